@@ -123,7 +123,7 @@ def affine_laws(t, devs):
     for k in range(3):
         if t.coin(25, 100, "m.special"):
             # the matrices documents really use: pure translations, scalings (also with determinant 1), quarter and half turns, flips
-            lin = t.pick([(1, 0, 0, 1), (-1, 0, 0, -1), (2, 0, 0, Fraction(1, 2)), (Fraction(1, 3), 0, 0, 3), (0, 1, -1, 0), (0, -1, 1, 0), (1, 0, 0, -1), (-1, 0, 0, 1), (5, 0, 0, 5), (0, 2, Fraction(-1, 2), 0)], "m.special.lin")
+            lin = t.pick([(1, 0, 0, 1), (-1, 0, 0, -1), (2, 0, 0, Fraction(1, 2)), (Fraction(1, 3), 0, 0, 3), (0, 1, -1, 0), (0, -1, 1, 0), (1, 0, 0, -1), (-1, 0, 0, 1), (5, 0, 0, 5), (0, 2, Fraction(-1, 2), 0), (1, 2, 2, 1), (1, Fraction(1, 2), Fraction(1, 2), 1), (1, -3, -3, 1), (1, 1, -1, 1), (1, 0, 2, 1), (1, 2, 0, 1)], "m.special.lin")
             m[k] = tuple(Fraction(v) for v in lin) + (m[k][4], m[k][5])
     p = (frac(t), frac(t))
     I = (1, 0, 0, 1, 0, 0)
